@@ -1,6 +1,7 @@
 package c06
 
 import (
+	"flag"
 	"fmt"
 	"net/netip"
 	"strings"
@@ -343,6 +344,35 @@ func stormFresh(ca string) int {
 	return n
 }
 
+// genTunnels draws 1..3 CONNECT tunnels over the spellings that carry a port
+// (a CONNECT authority has one).
+func genTunnels(t *rapid.T, hosts []Host) (Op, bool) {
+	var withPort []int
+	for i, h := range hosts {
+		if h.Port {
+			withPort = append(withPort, i)
+		}
+	}
+	if len(withPort) == 0 {
+		return Op{}, false
+	}
+	op := Op{Kind: "tunnels"}
+	n := rapid.IntRange(1, 3).Draw(t, "tunnels_n")
+	for i := 0; i < n; i++ {
+		w := Worker{Host: rapid.SampledFrom(withPort).Draw(t, "t_host"), Gap: rapid.IntRange(0, 3).Draw(t, "t_gap") != 0}
+		switch rapid.SampledFrom([]string{"none", "none", "same", "drawn"}).Draw(t, "t_sni") {
+		case "same":
+			if h := hosts[w.Host]; strings.HasPrefix(h.Class, "dns") {
+				w.Sni = h.Name
+			}
+		case "drawn":
+			w.Sni = genSNI(t, hosts, w.Host, 0)
+		}
+		op.Workers = append(op.Workers, w)
+	}
+	return op, true
+}
+
 func genOp(t *rapid.T, hosts []Host) Op {
 	switch k := rapid.SampledFrom([]string{"get", "get", "get", "get", "get", "hs", "hs", "hs", "noname", "conc"}).Draw(t, "kind"); k {
 	case "noname":
@@ -376,7 +406,7 @@ var propMachine = &kit.Prop[Case]{
 
 var propExpiry = &kit.Prop[Case]{
 	ID: "C06", Name: "expiry",
-	Rule:       "histories over a mitm.Config with SetValidity(2s): 1..4 requests, a sleep past the NotAfter of everything issued, then the same request again (the cached entry is now invalid) and 0..3 more requests or a concurrent burst; thorough: sometimes a second crossing; " + oracleText + "; non-trivial = a request for a host whose cached certificate has expired",
+	Rule:       "histories over a mitm.Config with SetValidity(2s): 1..4 requests, a sleep past the NotAfter of everything issued, then the same request again (the cached entry is now invalid; in 2 of 3 cases served by a tls.Config that was built before the sleep) and 0..3 more requests, a concurrent burst, or 1..3 CONNECT tunnels through a real proxy that stay idle past the validity before the ClientHello; thorough: sometimes a second crossing; " + oracleText + "; non-trivial = a request for a host whose cached certificate has expired",
 	Run:        func(c Case) kit.Verdict { return run("expiry", c) },
 	NonTrivial: func(c Case) bool { return analyse(c).crossing },
 	Classes:    classes,
@@ -391,10 +421,31 @@ var propExpiry = &kit.Prop[Case]{
 			rounds = 2
 		}
 		for r := 0; r < rounds; r++ {
-			c.Ops = append(c.Ops, Op{Kind: "expire"})
 			again := c.Ops[rapid.IntRange(0, pre-1).Draw(t, "again")]
 			again.Kind = rapid.SampledFrom([]string{"get", "get", "hs"}).Draw(t, "again_kind")
+			again.Held = false
+			if rapid.IntRange(0, 2).Draw(t, "held") != 0 {
+				// the server side is set up before the gap, the client speaks after it
+				again.Held = true
+				if again.API != "tls" && again.Host >= 0 {
+					switch rapid.SampledFrom([]string{"keep", "none", "none", "same"}).Draw(t, "held_sni") {
+					case "none":
+						again.Sni = ""
+					case "same":
+						if h := c.Hosts[again.Host]; strings.HasPrefix(h.Class, "dns") {
+							again.Sni = h.Name
+						}
+					}
+				}
+				c.Ops = append(c.Ops, Op{Kind: "prep", API: again.API, Host: again.Host})
+			}
+			c.Ops = append(c.Ops, Op{Kind: "expire"})
 			c.Ops = append(c.Ops, again)
+			if rapid.IntRange(0, 3).Draw(t, "tunnels") == 0 {
+				if op, ok := genTunnels(t, c.Hosts); ok {
+					c.Ops = append(c.Ops, op)
+				}
+			}
 			if rapid.IntRange(0, 2).Draw(t, "burst") == 0 {
 				c.Ops = append(c.Ops, genConc(t, c.Hosts, 3))
 			}
@@ -430,7 +481,7 @@ var propConcurrent = &kit.Prop[Case]{
 
 var propMatrix = &kit.Prop[Case]{
 	ID: "C06", Name: "matrix",
-	Rule:       "fixed matrix: every listed spelling class (lower/mixed-case names, 63-byte label, 253-byte name, punycode, IPv4, IPv6 loopback/compressed/upper-case/expanded/IPv4-mapped, each bare and with port) x {direct, cache hit, handshake TLS1.3, handshake TLS1.2, SNI same / SNI different / SNI through Config.TLS()}, plus the six no-name requests; " + oracleText,
+	Rule:       "fixed matrix: every listed spelling class (lower/mixed-case names, 63-byte label, 253-byte name, punycode, IPv4, IPv6 loopback/compressed/upper-case/expanded/IPv4-mapped, each bare and with port) x {direct, cache hit, handshake TLS1.3, handshake TLS1.2, SNI same / SNI different / SNI through Config.TLS()}, plus the no-name requests; three rows repeated under a P-256 authority; " + oracleText,
 	Run:        func(c Case) kit.Verdict { return run("matrix", c) },
 	NonTrivial: nonTrivial, Classes: classes,
 }
@@ -448,9 +499,14 @@ func matrixCases() []Case {
 		ipHost("::ffff:192.0.2.9", 0), ipHost("::ffff:192.0.2.9", 443), ipHost("fe80::1", 0), ipHost("::", 443),
 	}
 	var out []Case
-	for _, h := range hosts {
+	// the first rows once more under the P-256 authority, ahead of the rest
+	rows := append([]Host{dnsHost("Ecdsa.Example.com", 443), ipHost("192.0.2.1", 443), ipHost("2001:db8::1", 443)}, hosts...)
+	for i, h := range rows {
 		sibling := dnsHost("sibling.example.net", 0)
 		c := Case{Org: "Matrix Org", Hosts: []Host{h, sibling}}
+		if i < 3 {
+			c.CA = "ecdsa"
+		}
 		isDNS := strings.HasPrefix(h.Class, "dns")
 		c.Ops = []Op{
 			{Kind: "get", Host: 0},
@@ -485,6 +541,67 @@ func matrixCases() []Case {
 	return out
 }
 
+var propTiming = &kit.Prop[Case]{
+	ID: "C06", Name: "timing",
+	Rule:       "fixed histories about WHEN the leaf is chosen: (a) SetValidity(2s), tls.Configs for five spellings and Config.TLS() built first, one request to fill the cache, a sleep past the validity, then direct requests and real handshakes served by the configs built before the sleep (no SNI, SNI equal to the authority, other SNI); (b) a real martian.Proxy doing MITM with SetValidity(1s): six CONNECT tunnels in parallel, five of them idle for 1.3 s between the 200 and the ClientHello (no SNI, SNI equal to the authority, IPv4, bracketed IPv6, other SNI), one without pause; thorough repeats both under the P-256 authority; " + oracleText + "; non-trivial = a certificate served after such a gap",
+	Run:        func(c Case) kit.Verdict { return run("timing", c) },
+	NonTrivial: func(c Case) bool { ci := analyse(c); return ci.heldCrossing || ci.idleTunnel },
+	Classes:    classes,
+}
+
+func timingCases() []Case {
+	var out []Case
+	cas := []string{""}
+	if kit.Thorough() {
+		cas = []string{"", "ecdsa"}
+	}
+	for _, caKind := range cas {
+		// (a) configurations built before the gap
+		a := Case{Org: "Timing Org", CA: caKind, Short: true, Hosts: []Host{
+			dnsHost("held.example.com", 443), dnsHost("Held-Mixed.Example.ORG", 0), ipHost("10.20.30.40", 8443),
+			ipHost("2001:db8::77", 443), ipHost("2001:db8::78", 0),
+		}}
+		for i := range a.Hosts {
+			a.Ops = append(a.Ops, Op{Kind: "prep", Host: i})
+		}
+		a.Ops = append(a.Ops, Op{Kind: "prep", API: "tls"}, Op{Kind: "get", Host: 0}, Op{Kind: "expire"})
+		for i, h := range a.Hosts {
+			a.Ops = append(a.Ops, Op{Kind: "get", Host: i, Held: true}, Op{Kind: "hs", Host: i, Held: true, TLS12: i%2 == 1})
+			if strings.HasPrefix(h.Class, "dns") {
+				a.Ops = append(a.Ops, Op{Kind: "hs", Host: i, Sni: h.Name, Held: true}, Op{Kind: "get", Host: i, Sni: h.Name, Held: true})
+			}
+		}
+		a.Ops = append(a.Ops,
+			Op{Kind: "get", Host: 0, Sni: "other.example.org", Held: true},
+			Op{Kind: "hs", API: "tls", Sni: "held.example.com", Held: true},
+			Op{Kind: "get", API: "tls", Held: true}, // still refused
+		)
+		out = append(out, a)
+
+		// (b) tunnels through the proxy, idle past a 1 s validity
+		b := Case{Org: "Timing Org", CA: caKind, ValidityMs: 1000, Hosts: []Host{
+			dnsHost("idle-nosni.example.com", 443), dnsHost("Idle-Sni.Example.com", 8443), ipHost("10.20.30.40", 443),
+			ipHost("2001:db8::77", 443), dnsHost("nogap.example.com", 443),
+		}}
+		b.Ops = []Op{
+			{Kind: "tunnels", Workers: []Worker{
+				{Host: 0, Gap: true}, {Host: 1, Sni: "Idle-Sni.Example.com", Gap: true}, {Host: 2, Gap: true}, {Host: 3, Gap: true},
+				{Host: 4}, {Host: 0, Sni: "other.example.org", Gap: true},
+			}},
+			{Kind: "get", Host: 0},
+		}
+		out = append(out, b)
+	}
+	return out
+}
+
+// shrink bounds rapid's shrinking of a failing history; kit raises rapid's
+// default to 60 s, which for three failing checks (and histories that sleep)
+// ran a quick run into its deadline instead of reporting after a minute.
+func shrink(quick, thorough string) {
+	flag.Set("rapid.shrinktime", map[bool]string{false: quick, true: thorough}[kit.Thorough()])
+}
+
 // ---------------------------------------------------------------- tests
 
 func TestMatrix(t *testing.T) {
@@ -500,7 +617,21 @@ func TestMatrix(t *testing.T) {
 	})
 }
 
+func TestTiming(t *testing.T) {
+	if kit.Race() {
+		t.Skip("fixed sequential histories; the expiry check covers the same ops under the race detector")
+	}
+	propTiming.Enumerate(t, func(yield func(Case) bool) {
+		for _, c := range timingCases() {
+			if !yield(c) {
+				return
+			}
+		}
+	})
+}
+
 func TestMachine(t *testing.T) {
+	shrink("12s", "60s")
 	n := kit.N(60, 200)
 	if kit.Race() {
 		n = kit.N(6, 30)
@@ -509,6 +640,7 @@ func TestMachine(t *testing.T) {
 }
 
 func TestConcurrent(t *testing.T) {
+	shrink("10s", "45s")
 	n := kit.N(25, 120)
 	if kit.Race() {
 		n = kit.N(12, 60)
@@ -517,6 +649,7 @@ func TestConcurrent(t *testing.T) {
 }
 
 func TestExpiry(t *testing.T) {
+	shrink("6s", "20s")
 	n := kit.N(4, 6)
 	if kit.Race() {
 		n = kit.N(1, 3)
@@ -525,5 +658,5 @@ func TestExpiry(t *testing.T) {
 }
 
 func TestReplay(t *testing.T) {
-	kit.Replay(t, propMachine, propExpiry, propConcurrent, propMatrix)
+	kit.Replay(t, propMachine, propExpiry, propConcurrent, propMatrix, propTiming)
 }
